@@ -6,9 +6,12 @@ From PGV Require Import C01.Model C01.Proofs C01.ProofsInst.
 (* ---------------------------------------------------------------------------------------------
    1. TRL — the transactional-resource laws — hold for every modelled resource kind
       (locals incl. indexed access, InputChan, CustomInChan, OutputChan, Dummy, file,
-      Persistent over a local, PersistentLog, localShared, and — w.r.t. the view published by
-      committed sections — SingleOutputChan and relaxedMailboxesRemote), for IncMap/HashMap over
-      them, and are preserved by the family-with-dirty-set construction for ANY kind. *)
+      Persistent over a local, PersistentLog, localShared, TCP mailbox, the CRDT resource (one
+      node), the unreplicated 2PC variable (Commit needs the completed PreCommit: `leaf_prep`),
+      the failure detector (read-only), and — w.r.t. the view published by committed sections,
+      because their Abort panics — SingleOutputChan, relaxedMailboxesRemote and PlaceHolder), for
+      IncMap/HashMap over them, for nestedArchetype over any lawful nested system, and are
+      preserved by the family-with-dirty-set construction for ANY kind. *)
 Theorem trl_leaf : laws leaf_impl leaf_abs.
 Proof. exact leaf_laws. Qed.
 Print Assumptions trl_leaf.
@@ -16,6 +19,13 @@ Print Assumptions trl_leaf.
 Theorem trl_incmap : laws imap_impl imap_abs.
 Proof. exact imap_laws. Qed.
 Print Assumptions trl_incmap.
+
+(* nestedArchetype (the outer resource forwards every operation as a request to the nested system and takes its
+   acknowledgement, "aborted" or silence) over ANY lawful nested system is lawful *)
+Theorem trl_nested : forall (S O : Type) (I : impl S act) (X : absn S act O),
+  laws I X -> laws (retarget_impl I nested_act (fun _ => false)) (retarget_abs X nested_act (fun _ => false)).
+Proof. exact (@nested_laws_any). Qed.
+Print Assumptions trl_nested.
 
 Theorem trl_family : forall (K S A O : Type) (keqb : K -> K -> bool),
   (forall a b, keqb a b = true <-> a = b) ->
